@@ -32,6 +32,44 @@ CHECKS = {
         technique="TLC model checking of the pool + trace validation of scheduled real runs + differential runs",
         engine="tlc-gen+trace",
     ),
+    "C20": dict(
+        category="model_checking",
+        text="Cli.tla gives the documented exit status as a function of an abstract token sequence (info / bad / conflicting / "
+        "unknown options, directory, output path kinds, result-file kinds) and the AI-client environment; Gen_Cli enumerates all "
+        "sequences of length <= 2 over 29 tokens plus seeded longer ones; every scenario is run through the real codemodder.run and "
+        "the trace (expected status in RunStart) judged by Trace_Run; a sample runs the console script in real subprocesses.",
+        design_ref="DESIGN.md §5 C20",
+        note="Trusted: TLC, the order arguments -> directory -> result files -> AI configuration -> report taken from the statement; "
+        "unwritable output is produced by missing parent / directory / /dev/full (checks run as root); a consistent OpenAI "
+        "configuration cannot be exercised (client library unusable in this sandbox), the Azure Llama one is.",
+        technique="TLA+ CLI state machine enumerated by TLC + replay into the code + TLC trace validation",
+        engine="tlc-gen+trace",
+    ),
+    "C05": dict(
+        category="model_checking",
+        text="PathFilter.tla defines which files MAY and MUST change for include/exclude lists and mode; Gen_PathFilter enumerates "
+        "lists over 18 patterns (with and without :line) x {find-and-fix, SAST} over a universe tree (nested, test/build/venv/VCS "
+        "dirs, conftest, site-packages, non-Python, symlinked file and directory into a sibling tree); every scenario is replayed "
+        "through the real codemod objects (get_files_to_analyze on a real context), a sample end-to-end through the CLI and judged "
+        "by Trace_Run (changed within MAY, MUST changed, outside tree untouched).",
+        design_ref="DESIGN.md §5 C05",
+        note="Trusted: TLC, the glob reading (`*` any string, `?` one character, whole-path match), the pinned-core / don't-care "
+        "split of the default excludes (DESIGN §7), tree snapshots.",
+        technique="TLA+ reference semantics enumerated by TLC + replay into the code + TLC trace validation",
+        engine="tlc-gen+trace",
+    ),
+    "C13": dict(
+        category="model_checking",
+        text="For each of the pinned find-and-fix codemods with a single-line seed: programs with three copies of the site; batch "
+        "projects hold one file per subset of sites excluded / included / combined x spelling (relative, globbed, absolute); "
+        "Gen_Lines computes from the real pattern lists of each run which sites are permitted (PathFilter!Permitted); Trace_Run "
+        "judges the real run: only permitted sites rewritten, all permitted sites rewritten, change entries on exactly those lines.",
+        design_ref="DESIGN.md §5 C13",
+        note="Trusted: TLC, site detection by unique trailing comments, corpus/c13_pins.json (codemods whose construct is the single "
+        "line, measured at pin time). Known finding: include lines ignored when exclude lines are given for the same file.",
+        technique="TLA+ reference semantics evaluated by TLC on the run's real pattern lists + TLC trace validation",
+        engine="tlc-gen+trace",
+    ),
 }
 
 NOT_APPLICABLE: list[dict] = []
